@@ -31,7 +31,7 @@ AXES = {
     'alf_store_samples': [True, False], 'nan': ['none', 'amps', 'similar', 'attrs', 'template', 'template_first_row'],
     'attrs': ['none', 'right', 'wrong_len', 'both'], 'spikeless': ['none', 'first', 'middle', 'last'],
     'dat_path_str': [False, True], 'alf_skew': [False, True],
-    'fortran': [False, True], 'raw_symlink': [False, True], 'ks2_file': [False, True], 'dtype_amps': ['float64', 'float32'], 'dtype_templates': ['float32', 'float64'], 'dtype_feat': ['float32', 'float64'],
+    'fortran': [False, True], 'raw_symlink': [False, True], 'ks2_file': [False, True], 'npy_symlink': [False, True], 'dtype_amps': ['float64', 'float32'], 'dtype_templates': ['float32', 'float64'], 'dtype_feat': ['float32', 'float64'],
 }
 RULE = ('Each case = one generated dataset directory (configuration vector over %d axes: %s) + random '
         'contents, loaded with the real load_model (params path given as str / Path / through a symlink / relative to the working directory; directory names with spaces and non-ASCII characters); every listed public attribute is compared with the '
@@ -118,6 +118,7 @@ def build(case):
     spec.notes['fortran'] = bool(o['fortran'])
     spec.notes['raw_symlink'] = bool(o['raw_symlink'])
     spec.notes['ks2_templates_ind'] = bool(o['ks2_file'])
+    spec.notes['npy_symlink'] = bool(o['npy_symlink'])
     spec.alf_store_samples = o['alf_store_samples']
     if o['alf_skew'] and o['names'] == 'alf' and spec.alf_store_samples:
         # clock-synchronised seconds: monotonic but not bit-identical to samples / rate
@@ -164,6 +165,12 @@ def build(case):
             spec.spike_samples = s
             if spec.alf_times_custom is not None:
                 spec.alf_times_custom = s.astype(np.float64) / spec.sample_rate * 1.00002 + 0.125
+        if o['names'] == 'ks' and ns % 3 == 0:
+            # an (optional) re-ordered copy of the times lies next to the unsorted ones: the dataset is still rejected
+            import io
+            bio = io.BytesIO()
+            np.save(bio, np.sort(spec.spike_samples).astype(np.float64) / spec.sample_rate)
+            spec.extra_files['spike_times_reordered.npy'] = bio.getvalue()
     return spec, o
 
 
